@@ -50,3 +50,164 @@ pub fn thm_c03_reload<CS: CipherSuite>(st: ServerLogin<CS>) -> (r: Result<Server
     }
     ServerLogin::<CS>::deserialize(&bytes)
 }
+
+// ------------------------------------------------------------------------------------------------ shared lemmas
+/// OPRF unblinding (RFC 9497): ((P * b) * k) * b^-1 == P * k, from the two assumed group laws
+pub proof fn lemma_oprf_unblind<G: Group>(p: G::Elem, b: G::Scalar, k: G::Scalar)
+    requires G::scalar_nonzero(b)
+    ensures G::smul(G::smul(G::smul(p, b), k), G::inv(b)) == G::smul(p, k)
+{
+    G::lemma_smul_comm(p, b, k);
+    G::lemma_smul_inv(G::smul(p, k), b);
+}
+/// the OPRF output does not depend on the blind
+pub proof fn lemma_oprf_output_blind_independent<CS: CipherSuite>(pw: Seq<u8>, b: <OprfGroup<CS> as Group>::Scalar, k: <OprfGroup<CS> as Group>::Scalar)
+    requires <OprfGroup<CS> as Group>::scalar_nonzero(b), voprf::h2g::<CS::OprfCs>(pw) is Some
+    ensures ({
+        let p = voprf::h2g::<CS::OprfCs>(pw)->0;
+        rfc_oprf_output::<CS>(pw, b, <OprfGroup<CS> as Group>::smul(<OprfGroup<CS> as Group>::smul(p, b), k))
+            == <OprfHash<CS> as Digest>::h(voprf::finalize_input::<CS::OprfCs>(pw, <OprfGroup<CS> as Group>::smul(p, k)))
+    })
+{
+    lemma_oprf_unblind::<OprfGroup<CS>>(voprf::h2g::<CS::OprfCs>(pw)->0, b, k);
+}
+/// unmasking inverts masking (XOR pad involution) and the three fields come back
+pub proof fn lemma_unmask<CS: CipherSuite>(mk: Seq<u8>, mnonce: Seq<u8>, m: MaskedResponse<CS>, pk: Seq<u8>, nonce: Seq<u8>, tag: Seq<u8>)
+    requires
+        pk.len() == npk::<CS>(), nonce.len() == 32, tag.len() == nh::<CS>(),
+        masked_ser(m) == xor(rfc_pad::<CS>(mk, mnonce), pk + nonce + tag),
+    ensures
+        unmasked_pk::<CS>(mk, mnonce, m) == pk,
+        unmasked_nonce::<CS>(mk, mnonce, m) == nonce,
+        unmasked_tag::<CS>(mk, mnonce, m) == tag,
+{
+    <OprfHash<CS> as Digest>::lemma_expand_len(mk, mnonce + s_credential_response_pad(), npk::<CS>() + nn() + nh::<CS>());
+    let pad = rfc_pad::<CS>(mk, mnonce);
+    let x = pk + nonce + tag;
+    lemma_xor_involution(pad, x);
+    assert(unmasked::<CS>(mk, mnonce, m) == x);
+    assert(x.subrange(0, npk::<CS>() as int) =~= pk);
+    assert(x.subrange(npk::<CS>() as int, npk::<CS>() as int + 32) =~= nonce);
+    assert(x.subrange(npk::<CS>() as int + 32, npk::<CS>() as int + 32 + nh::<CS>() as int) =~= tag);
+}
+
+// ------------------------------------------------------------------------------------------------ C01
+/// what an honest run needs besides the lengths (negligible-probability exclusions, listed as assumptions):
+/// the OPRF accepts the password, the per-credential OPRF key exists and is not 1 (otherwise the reflected-value check fires),
+/// key derivations do not exhaust their 256 counters, the key-stretching function succeeds
+pub open spec fn c01_pre<CS: CipherSuite, R: RngCore>(
+    rs: R, r1: R, r2: R, r3: R, r4: R, pw: Seq<u8>, cred_id: Seq<u8>, ids: Identifiers, ctx: Option<&[u8]>, ksf: Option<&CS::Ksf>) -> bool
+{
+    let seed = tape(rs.id(), rs.pos() + nsk::<CS>(), nh::<CS>());
+    let p = voprf::h2g::<CS::OprfCs>(pw);
+    let k = rfc_oprf_key::<CS>(seed, cred_id);
+    let y = <OprfHash<CS> as Digest>::h(voprf::finalize_input::<CS::OprfCs>(pw, <OprfGroup<CS> as Group>::smul(p->0, k->Ok_0)));
+    let st = ksf_eff::<CS>(ksf).ksf_spec(y);
+    let rp = rfc_randomized_pwd::<CS>(y, st->Ok_0);
+    &&& pw.len() <= 65535 && ids_fit(ids) && cl_ctx_fit(ctx)
+    &&& kp_ok::<CS::KeGroup, CS::OprfCs>(rs.id(), rs.pos()) && kp_ok::<CS::KeGroup, CS::OprfCs>(rs.id(), rs.pos() + nsk::<CS>() + nh::<CS>())
+    &&& p is Some && k is Ok && st is Ok
+    &&& forall|e: <OprfGroup<CS> as Group>::Elem| <OprfGroup<CS> as Group>::smul(e, k->Ok_0) != e
+    &&& rfc_client_sk::<CS>(rp, tape(r2.id(), r2.pos(), 32)) is Ok
+    &&& kp_ok::<CS::KeGroup, CS::OprfCs>(r3.id(), r3.pos() + voprf::scalar_draw_len::<CS::OprfCs>(r3.id(), r3.pos()))
+    &&& kp_ok::<CS::KeGroup, CS::OprfCs>(r4.id(), r4.pos() + 32)
+}
+
+pub struct C01Out<CS: CipherSuite> {
+    pub reg_export_key: Output<OprfHash<CS>>,
+    pub reg_server_pk: PublicKey<CS::KeGroup>,
+    pub setup_pk: PublicKey<CS::KeGroup>,
+    pub login: ClientLoginFinishResult<CS>,
+    pub server: ServerLoginFinishResult<CS>,
+}
+
+/// C01: an honest registration followed by an honest login, for every password / identifiers / context / KSF / tapes and every
+/// suite (lengths and primitives are abstract): every step succeeds, both sides hold the same session key, and the client gets
+/// back the export key and the server public key of its registration.
+pub fn thm_c01_honest_run<CS: CipherSuite, R: RngCore + CryptoRng>(
+    rs: &mut R, r1: &mut R, r2: &mut R, r3: &mut R, r4: &mut R,
+    pw: &[u8], cred_id: &[u8], ids: Identifiers, ctx: Option<&[u8]>, ksf: Option<&CS::Ksf>,
+) -> (r: Result<C01Out<CS>, ProtocolError>)
+    requires
+        c01_pre::<CS, R>(*old(rs), *old(r1), *old(r2), *old(r3), *old(r4), pw@, cred_id@, ids, ctx, ksf),
+    ensures
+        r is Ok,
+        r->Ok_0.login.session_key == r->Ok_0.server.session_key,
+        r->Ok_0.login.export_key == r->Ok_0.reg_export_key,
+        r->Ok_0.login.server_s_pk == r->Ok_0.reg_server_pk,
+        r->Ok_0.reg_server_pk == r->Ok_0.setup_pk,
+        //@vacuity
+{
+    proof {
+        broadcast use ga_axioms, seq_norm;
+        lemma_lens::<CS>();
+    }
+    let ghost (s_id, s_pos) = (rs.id(), rs.pos());
+    let ghost (r1_id, r1_pos) = (r1.id(), r1.pos());
+    let ghost (r2_id, r2_pos) = (r2.id(), r2.pos());
+    let ghost (r3_id, r3_pos) = (r3.id(), r3.pos());
+    let ghost (r4_id, r4_pos) = (r4.id(), r4.pos());
+    let ghost p = voprf::h2g::<CS::OprfCs>(pw@)->0;
+    let ghost seed = tape(s_id, s_pos + nsk::<CS>(), nh::<CS>());
+    let ghost k = rfc_oprf_key::<CS>(seed, cred_id@)->Ok_0;
+    let ghost y = <OprfHash<CS> as Digest>::h(voprf::finalize_input::<CS::OprfCs>(pw@, <OprfGroup<CS> as Group>::smul(p, k)));
+    let ghost rp = rfc_randomized_pwd::<CS>(y, ksf_eff::<CS>(ksf).ksf_spec(y)->Ok_0);
+
+    // ---- setup and registration
+    let setup = ServerSetup::<CS>::new(rs);
+    let c_start = match ClientRegistration::<CS>::start(r1, pw) { Ok(v) => v, Err(e) => return Err(e) };
+    let ghost b1 = c_start.state.oprf_client.blind_of();
+    proof { voprf::axiom_scalar_of_tape_nonzero::<CS::OprfCs>(r1_id, r1_pos); }
+    let s_start = match ServerRegistration::<CS>::start(&setup, c_start.message, cred_id) { Ok(v) => v, Err(e) => return Err(e) };
+    let reg_server_pk = s_start.message.server_s_pk.clone();
+    proof {
+        lemma_oprf_output_blind_independent::<CS>(pw@, b1, k);
+        assert(rp_of::<CS>(pw@, b1, s_start.message.evaluation_element.v(), ksf) == Ok::<Seq<u8>, ()>(rp));
+    }
+    let c_fin = match c_start.state.finish(r2, pw, s_start.message, ClientRegistrationFinishParameters::new(ids, ksf)) { Ok(v) => v, Err(e) => return Err(e) };
+    let reg_export_key = c_fin.export_key;
+    let record = ServerRegistration::<CS>::finish(c_fin.message);
+    let ghost env_nonce = tape(r2_id, r2_pos, 32);
+    let ghost csk = rfc_client_sk::<CS>(rp, env_nonce)->Ok_0;
+    let ghost spk = setup.keypair.pk;
+    let ghost spk_bytes = <CS::KeGroup as KeGroup>::ser_pk(spk.0);
+
+    // ---- login
+    let l_start = match ClientLogin::<CS>::start(r3, pw) { Ok(v) => v, Err(e) => return Err(e) };
+    let ghost b2 = l_start.state.oprf_client.blind_of();
+    proof { voprf::axiom_scalar_of_tape_nonzero::<CS::OprfCs>(r3_id, r3_pos); }
+    let ghost cl_state = l_start.state;
+    let sl = match ServerLogin::<CS>::start(r4, &setup, Some(record), l_start.message, cred_id,
+        ServerLoginStartParameters { context: ctx, identifiers: ids }) { Ok(v) => v, Err(e) => return Err(e) };
+    let ghost resp = sl.message;
+    let params = ClientLoginFinishParameters::<CS>::new(ctx, ids, ksf);
+    proof {
+        // (1) same randomized password
+        lemma_oprf_output_blind_independent::<CS>(pw@, b2, k);
+        assert(rp_of::<CS>(pw@, b2, resp.evaluation_element.v(), ksf) == Ok::<Seq<u8>, ()>(rp));
+        // (2) unmasking returns the server key and the registered envelope
+        <CS::KeGroup as KeGroup>::lemma_ser_pk_len(spk.0);
+        <OprfHash<CS> as Digest>::lemma_hmac_len(rfc_auth_key::<CS>(rp, env_nonce), env_nonce + rfc_cleartext_credentials(spk_bytes, eff_id(ids.server, spk_bytes),
+            eff_id(ids.client, <CS::KeGroup as KeGroup>::ser_pk(<CS::KeGroup as KeGroup>::pk_of(csk)))));
+        let tag = rfc_envelope_tag::<CS>(rp, env_nonce, spk_bytes, ids);
+        let mk = rfc_masking_key::<CS>(rp);
+        lemma_unmask::<CS>(mk, resp.masking_nonce@, resp.masked_response, spk_bytes, env_nonce, tag);
+        <CS::KeGroup as KeGroup>::lemma_derive_nonzero::<CS::OprfCs>(tape(s_id, s_pos, nsk::<CS>()));
+        <CS::KeGroup as KeGroup>::lemma_pk_roundtrip(setup.keypair.sk.0);
+        assert(cl_server_pk::<CS>(cl_state, pw@, resp, params) == Some(spk.0));
+        assert(cl_env_nonce::<CS>(cl_state, pw@, resp, params) == env_nonce);
+        assert(cl_client_sk::<CS>(cl_state, pw@, resp, params) == csk);
+        // (3) the three Diffie-Hellman values agree
+        let cesk = cl_state.ke1_state.client_e_sk.0;
+        let sesk = kp_sk::<CS::KeGroup, CS::OprfCs>(r4_id, r4_pos + 32);
+        <CS::KeGroup as KeGroup>::lemma_dh_sym(sesk, cesk);
+        <CS::KeGroup as KeGroup>::lemma_dh_sym(setup.keypair.sk.0, cesk);
+        <CS::KeGroup as KeGroup>::lemma_dh_sym(sesk, csk);
+        // (4) the reflected-value check does not fire
+        assert(cl_state.credential_request.blinded_element.v() != resp.evaluation_element.v());
+        assert(cl_accepts::<CS>(cl_state, pw@, resp, params));
+    }
+    let login = match l_start.state.finish(pw, sl.message, params) { Ok(v) => v, Err(e) => return Err(e) };
+    let server = match sl.state.finish(login.message.clone()) { Ok(v) => v, Err(e) => return Err(e) };
+    Ok(C01Out { reg_export_key, reg_server_pk, setup_pk: setup.keypair.public().clone(), login, server })
+}
